@@ -158,7 +158,7 @@ def build(n, edges, kinds, order, placement):
     x = [hw.wire('x%d' % j) for j in range(n)]
     o = [(hw.wire('n%d_o0' % j), hw.wire('n%d_o1' % j)) for j in range(n)]
     parents = [hw] * n
-    if placement[0] in ('split', 'splitsame'):
+    if placement[0] in ('split', 'splitsame', 'latesplit'):
         ga, gb = Logic(hw, 'ga'), Logic(hw, 'gb')
         parents = [ga if (placement[1] >> j) & 1 else gb for j in range(n)]
     c = types.SimpleNamespace(sys=hw, free=x, n=n, edges=edges, kinds=kinds, o=o, nodes={})
@@ -274,8 +274,8 @@ def run_design(n, edges, kinds, order, placement, res):
 
     def mk():
         c = build(n, edges, kinds, order, placement)
-        if placement[0] == 'late':
-            k = placement[1]
+        if placement[0] in ('late', 'latesplit'):
+            k = placement[-1]
             for j in c.order[:k]:
                 c.inst(j)
             try:
@@ -316,7 +316,7 @@ def run_design(n, edges, kinds, order, placement, res):
                 with core.quiet():
                     hw2 = None
                     cc = build(n, edges, kinds, order, placement)
-                    k = placement[1] if placement[0] == 'late' else len(cc.order)
+                    k = placement[-1] if placement[0] in ('late', 'latesplit') else len(cc.order)
                     for j in cc.order[:k]:
                         cc.inst(j)
                     try:
@@ -345,7 +345,7 @@ def run_design(n, edges, kinds, order, placement, res):
         # The statement covers 'when the simulator is created and after every clock call'.  A second
         # getSimulator() on an existing simulator only re-sorts (it is not a creation), so for the
         # late-addition placement only the order is checked here; values are checked after each clk().
-        if placement[0] == 'late':
+        if placement[0] in ('late', 'latesplit'):
             return structural_check(c)
         return structural_check(c) or fixpoint_check(c) or value_check(c, (0,) * n)
 
@@ -423,9 +423,12 @@ def placements(n, mode):
     if mode in ('full',):
         out += [('split', m) for m in range(1, (1 << n) - 1)]
         out += [('late', k) for k in range(1, n)]
+        # late addition INSIDE structural children that already existed when the simulator was first created
+        out += [('latesplit', m, k) for m in sorted({(1 << n) - 1, 0b0101 & ((1 << n) - 1)}) if m for k in range(1, n)]
     elif mode == 'some':
         out += [('split', m) for m in (1, (1 << n) - 2, 0b0101 & ((1 << n) - 1)) if 0 < m < (1 << n) - 1]
         out += [('late', n // 2)]
+        out += [('latesplit', (1 << n) - 1, n // 2)]
     elif mode == 'few':
         out += [('split', 0b0101 & ((1 << n) - 1)), ('late', n // 2)]
     return out
@@ -589,11 +592,96 @@ def run_long(d, res):
                     res['violations'].append({'sig': sig, 'shard': desc, 'trace': tr, 'detail': bad})
 
 
+class SrcG(Logic):
+    """a combinational leaf WITHOUT input ports: its outputs decode an attribute the test bench changes between clock calls"""
+    def __init__(self, parent, name, o0, o1):
+        super().__init__(parent, name)
+        self.o0 = self.addOut('o0', o0)
+        self.o1 = self.addOut('o1', o1)
+        self.v = 0
+
+    def propagate(self):
+        self.o0.put(self.v ^ 1)
+        self.o1.put(self.v)
+
+
+class PadIn(Logic):
+    """a combinational leaf whose only source is an in/out port (the input half of a pad cell)"""
+    def __init__(self, parent, name, pad, o):
+        super().__init__(parent, name)
+        self.pad = self.addInOut('pad', pad)
+        self.o = self.addOut('o', o)
+
+    def propagate(self):
+        self.o.put(self.pad.get())
+
+
+def run_srcless(d, res):
+    """combinational leaves without input ports at the head of a combinational chain: a library Constant whose value attribute
+    is re-assigned (the repository's test-bench idiom), a user leaf decoding an attribute, a pad-input cell on a bidirectional
+    wire.  Every sequence (length <= 3) of (new source value, clk(0) | clk(1)) - after each clock call the chain is settled."""
+    kinds = ['constant', 'attr', 'pad']
+    orders = ['src_first', 'src_last']
+    for kind in kinds:
+        for order in orders:
+            for L in (1, 2, 3):
+                for seq in itertools.product([(v, n) for v in (0, 1) for n in (0, 1)], repeat=L):
+                    desc = {'family': 'srcless', 'n': 0, 'kind': kind, 'order': order}
+                    with core.quiet():
+                        hw = py4hw.HWSystem()
+                        s0, a, b = hw.wire('s0'), hw.wire('a'), hw.wire('b')
+                        pad = hw.bidir_wire('pad') if kind == 'pad' else None
+
+                        def src():
+                            if kind == 'constant':
+                                return py4hw.Constant(hw, 'src', 0, s0)
+                            if kind == 'attr':
+                                return SrcG(hw, 'src', hw.wire('s0n'), s0)
+                            return PadIn(hw, 'src', pad, s0)
+
+                        def rest():
+                            py4hw.Not(hw, 'inv', s0, a)
+                            CombG(hw, 'g', [a, s0], hw.wire('bn'), b)
+                        if order == 'src_first':
+                            sc = src()
+                            rest()
+                        else:
+                            rest()
+                            sc = src()
+                        sim = hw.getSimulator()
+                    res['programs'] += 1
+                    cur, tr, bad = 0, [], None
+                    for v, n in seq:
+                        if kind == 'constant':
+                            sc.value = v
+                        elif kind == 'attr':
+                            sc.v = v
+                        else:
+                            pad.put(v)
+                        with core.quiet():
+                            sim.clk(n)
+                        tr.append([v, n])
+                        res['evaluations'] += 1
+                        res['distinct_nontrivial'] += v
+                        got = (s0.get(), a.get(), b.get())
+                        exp = (v, v ^ 1, 1)          # b = XOR(a, s0) = 1
+                        res['_outcomes'].add(got)
+                        if got != exp:
+                            bad = {'sigkey': 'wrong_values_inputless_source', 'source': kind, 'instantiation': order,
+                                   'after': 'source value %d then clk(%d)' % (v, n), 'expected(s0,~s0,xor)': list(exp), 'got': list(got)}
+                            break
+                    if bad:
+                        sig = 'C04:%s:%s' % (bad['sigkey'], kind)
+                        if not any(x['sig'] == sig for x in res['violations']):
+                            res['violations'].append({'sig': sig, 'shard': desc, 'trace': tr, 'detail': bad})
+
+
 def shards(tier):
     out = []
     T = tier == 'thorough'
     for n in ((48, 64, 100, 200) if T else (48, 64, 100)):
         out.append({'n': n, 'space': 'long', 'lo': 0, 'hi': 1})
+    out.append({'n': 0, 'space': 'srcless', 'lo': 0, 'hi': 1})
     for n in ((2, 3, 4, 5) if T else (2, 3, 4)):
         out.append({'n': n, 'space': 'iface', 'lo': 0, 'hi': 1})
     out.append({'n': 3, 'space': 'cross', 'lo': 0, 'hi': 1})
@@ -647,8 +735,8 @@ def run_shard(d):
     res = {'programs': 0, 'cyclic': 0, 'states': 0, 'transitions': 0, 'traces_validated_against_impl': 0,
            'evaluations': 0, 'distinct_nontrivial': 0, 'violations': [], 'samples': [], '_outcomes': set(),
            '_validate_every': 1 if n <= 2 else (3 if n == 3 else 8)}
-    if d['space'] in ('iface', 'cross', 'long'):
-        {'iface': run_iface, 'cross': run_cross, 'long': run_long}[d['space']](d, res)
+    if d['space'] in ('iface', 'cross', 'long', 'srcless'):
+        {'iface': run_iface, 'cross': run_cross, 'long': run_long, 'srcless': run_srcless}[d['space']](d, res)
         res['distinct_outcomes'] = len(res.pop('_outcomes'))
         res.pop('_validate_every')
         res['refused'] = res.pop('cyclic')
@@ -676,9 +764,9 @@ def finish(cov, results, tier):
 
 def replay(v):
     d = v['shard']
-    if d.get('family') in ('iface_chain', 'cross', 'long'):
+    if d.get('family') in ('iface_chain', 'cross', 'long', 'srcless'):
         res = {'programs': 0, 'evaluations': 0, 'distinct_nontrivial': 0, 'violations': [], '_outcomes': set()}
-        {'iface_chain': run_iface, 'cross': run_cross, 'long': run_long}[d['family']]({'n': d.get('n', 3)}, res)
+        {'iface_chain': run_iface, 'cross': run_cross, 'long': run_long, 'srcless': run_srcless}[d['family']]({'n': d.get('n', 3)}, res)
         hit = [x for x in res['violations'] if x['sig'] == v['sig']]
         return {'violates': bool(hit), 'detail': hit[:1]}
     n, edges, kinds = d['n'], [tuple(e) for e in d['edges']], list(d['kinds'])
@@ -687,14 +775,14 @@ def replay(v):
     pl = tuple(d['placement'])
     out = {'design': d, 'expect_refuse': expect_refuse}
     try:
-        if pl[0] == 'late':
-            for j in c.order[:pl[1]]:
+        if pl[0] in ('late', 'latesplit'):
+            for j in c.order[:pl[-1]]:
                 c.inst(j)
             try:
                 c.sys.getSimulator()
             except Exception:
                 pass
-            for j in c.order[pl[1]:]:
+            for j in c.order[pl[-1]:]:
                 c.inst(j)
         else:
             for j in c.order:
@@ -723,7 +811,7 @@ def replay(v):
         out['violates'] = True
         return out
     c.regs = {j: ((0, 0) if kinds[j] == 's' else 0) for j in range(n) if kinds[j] in 'sm'}
-    bad = structural_check(c) if pl[0] == 'late' else (structural_check(c) or fixpoint_check(c) or value_check(c, (0,) * n))
+    bad = structural_check(c) if pl[0] in ('late', 'latesplit') else (structural_check(c) or fixpoint_check(c) or value_check(c, (0,) * n))
     steps = []
     for x in v.get('trace', []):
         for w, val in zip(c.free, x):
